@@ -134,10 +134,10 @@ def write_trace_model(d, p, kind):
         core.copy_specs(d, {"MemCache", "Trace_MemCache"})
         root = "TRexact"
         cfg = dict(p["cfg"], pins=pins(p["algo"]), initCaps=set(p["init_caps"]))
-        with open(os.path.join(d, root + ".tla"), "w") as f:
-            f.write(f"---- MODULE {root} ----\nEXTENDS Trace_MemCache\n")
-            f.write(f"c_Hash == {core.tla_value({int(k): v for k, v in p['hash'].items()})}\n")
-            f.write(f"c_Cfg == {core.tla_value(cfg)}\n====\n")
+        core.write_atomic(os.path.join(d, root + ".tla"),
+                          f"---- MODULE {root} ----\nEXTENDS Trace_MemCache\n"
+                          f"c_Hash == {core.tla_value({int(k): v for k, v in p['hash'].items()})}\n"
+                          f"c_Cfg == {core.tla_value(cfg)}\n====\n")
         lines = ["SPECIFICATION TraceSpec", "CONSTANTS", f"  Keys = {core.tla_value(set(p['keys']))}",
                  "  Hash <- c_Hash", f"  Shards = {p['shards']}", f"  Algo = \"{p['algo']}\"", "  Cfg <- c_Cfg",
                  "INVARIANT TraceInv", "PROPERTIES MinimalEviction PinnedNeverVictim",
@@ -145,9 +145,9 @@ def write_trace_model(d, p, kind):
     else:
         core.copy_specs(d, {"Trace_MemDiag"})
         root = "TRdiag"
-        with open(os.path.join(d, root + ".tla"), "w") as f:
-            f.write(f"---- MODULE {root} ----\nEXTENDS Trace_MemDiag\n")
-            f.write(f"c_Hash == {core.tla_value({int(k): v for k, v in p['hash'].items()})}\n====\n")
+        core.write_atomic(os.path.join(d, root + ".tla"),
+                          f"---- MODULE {root} ----\nEXTENDS Trace_MemDiag\n"
+                          f"c_Hash == {core.tla_value({int(k): v for k, v in p['hash'].items()})}\n====\n")
         lines = ["SPECIFICATION Spec", "CONSTANTS", f"  Keys = {core.tla_value(set(p['keys']))}",
                  "  Hash <- c_Hash", f"  Shards = {p['shards']}",
                  f"  Pins = {'TRUE' if pins(p['algo']) else 'FALSE'}",
